@@ -45,7 +45,7 @@ RULE = (
     "SimpleGrammar and (half of the cases) a PydanticGrammar plus one Python model per grammar: update_from_names/"
     "types/data (merge on/off), update(other slot, excluded names, merge), update_from_schema/update_from_file, "
     "restrict_to, rename_element, del, add_namespace, clear, copy into the other slot, pickle round trip, "
-    "required_names add/discard/remove/clear, defaults set/del/update/assign, construction from a pydantic model "
+    "required_names add/discard/remove/clear, defaults set/del/update/assign and assignment of the other slot's Defaults object / copy / dict, schemas with additionalProperties false, construction from a pydantic model "
     "with optional fields, invalid variants of these (unknown names, merge on a simple grammar, already namespaced "
     "name) and the queries keys/len/in, names_without_namespace, schema, to_json, repr, getitem, to_simple_grammar, "
     "validate; a quarter of the edits are 'probed': valid data are validated right before and right after the edit. "
